@@ -222,7 +222,7 @@ fn value_level<T: Nums + Evaluate>(m: &mut Mon, opname: &str, orig: &Piecewise<T
             let mut okdom = true;
             for ci in &c {
                 let t = ci.abs() * p;
-                if *ci != 0.0 && !((1e-280..1e280).contains(&t) && (1e-280..1e280).contains(&p)) {
+                if *ci != 0.0 && !((1e-280..1e280).contains(&t) && (1e-280..1e280).contains(&p) && (1e-280..1e280).contains(&ci.abs())) {
                     // a partial term (or the power itself) overflows / underflows: outside the property's domain
                     okdom = false;
                 }
